@@ -369,11 +369,13 @@ bool World::op_net(std::string const& ctx, toks const& op)
 		}
 		else if (m == "send_to")
 		{
-			std::size_t const len = std::size_t(kvi(op, "len", 0));
+			std::size_t len = std::size_t(kvi(op, "len", 0));
 			int const nb = int(kvi(op, "bufs", 1));
 			std::uint64_t const id = std::uint64_t(kvi(op, "id", 0));
 			std::vector<std::uint8_t> data(len);
 			for (std::size_t i = 0; i < len; ++i) data[i] = std::uint8_t((id * 7 + i) & 0xff);
+			// explicit payload: `data=<hex>` (then len= is ignored)
+			if (!kv(op, "data", nullptr).empty()) { data = unhex(kv(op, "data", "-")); len = data.size(); }
 			std::vector<boost::asio::const_buffer> bufs;
 			std::size_t pos = 0;
 			for (std::size_t sz : cut(len, nb)) { bufs.push_back(boost::asio::const_buffer(data.data() + pos, sz)); pos += sz; }
